@@ -27,6 +27,7 @@ class txin_stream:
     props = ["C07", "C04"]
     sig = dict(self=TXIN, f=WFile(), blank_solutions=Bool())
     assigns = ["f"]
+    options = {'reveal': ['ser_txin']}
 
     def requires(self, f, blank_solutions):
         return wf_txin(self)
@@ -42,6 +43,7 @@ class txout_stream:
     props = ["C07", "C04"]
     sig = dict(self=TXOUT, f=WFile())
     assigns = ["f"]
+    options = {'reveal': ['ser_txout']}
 
     def requires(self, f):
         return wf_txout(self)
@@ -93,6 +95,7 @@ class tx_stream:
     props = ["C07"]
     sig = dict(self=TX, f=WFile(), blank_solutions=Bool(), include_unspents=Const(False), include_witness_data=Bool())
     assigns = ["f"]
+    options = {'reveal': ['ser_witness']}
 
     def requires(self, f, blank_solutions, include_unspents, include_witness_data):
         return (0 <= self.version and self.version < 2 ** 32 and 0 <= self.lock_time and self.lock_time < 2 ** 32
